@@ -34,3 +34,4 @@ def run(prog, rep):
     _rio3.run_replace_extent(prog, rep)
     from ..rules import r_del as _rdbh
     _rdbh.run_backend_by_handle(prog, rep)
+    _rk13.run_getter_raw(prog, rep)
